@@ -6,9 +6,9 @@ import codec
 
 MODEL_TARGETS = ["model/SingleObject.vo", "model/CanonicalForm.vo"]
 COQ_TARGETS = ["props/C18.vo", "proofs/ConstsTie.vo", "proofs/SingleObjectSinkProofs.vo"]
-THEOREMS = [("C18", ["C18_enc", "C18_dec", "C18_mismatch", "C18_short", "C18_roundtrip", "C18_slice_reader"]),
+THEOREMS = [("C18", ["C18_enc", "C18_dec", "C18_mismatch", "C18_short", "C18_roundtrip", "C18_slice_reader", "C18_sink_schedule_independent", "C18_sink_any_schedule", "C18_header_write_once_refuted"]),
             ("SingleObjectSinkProofs", ["so_encode_sink_header_does_not_fit", "so_encode_sink_vec_header"])]
-PROOF_FILES = ["proofs/SingleObjectProofs.v", "proofs/SingleObjectChunkProofs.v", "proofs/ReaderProofs.v", "props/C18.v", "proofs/SingleObjectSinkProofs.v"]
+PROOF_FILES = ["proofs/SingleObjectProofs.v", "proofs/SingleObjectChunkProofs.v", "proofs/ReaderProofs.v", "props/C18.v", "proofs/SingleObjectSinkProofs.v", "proofs/SinkWriteProofs.v"]
 TRUSTED_BASE = [
     "Coq 8.16.1 kernel; no axioms (Print Assumptions: closed)",
     "hand-written model/SingleObject.v of single_object_encoding.rs over the models of the datum codec and of the fingerprint (C08), tied by the correspondence run",
